@@ -1,3 +1,121 @@
+/-
+C16 — A conditional publish lands only at the offset it expected.
+On a log with optimistic concurrency control the leader's sequencer appends one message at
+a time (`batchSize = 1`, extracted fact `Gen.Partition.occBatchOne`); concurrency between
+publishers is the arrival order at that sequencer, i.e. an arbitrary list of publishes.
+-/
 import Liftbridge.Model.Log
+import Liftbridge.Proofs.Log
+import Liftbridge.Proofs.Occ
+import Liftbridge.Gen.Partition
+
 namespace Liftbridge.Props.C16
+open Liftbridge Liftbridge.Log Liftbridge.Log.CLog Liftbridge.Proofs.Log Liftbridge.Proofs
+
+/-- One conditional publish as processed by the sequencer: the new state and the outcome
+(assigned offset, or the error of the negative acknowledgement). -/
+def publish (l : CLog) (m : Msg) : CLog × Res Int :=
+  match l.append [m] with
+  | .ok (l', offs) => (l', match offs with | [o] => .ok o | _ => .panic)
+  | .err e => (l.checkSplitIfWritable, .err e)
+  | .panic => (l, .panic)
+
+/-- Publishes processed in arrival order; each paired with its outcome. -/
+def runPubs : CLog → List Msg → List (Msg × Res Int)
+  | _, [] => []
+  | l, m :: ms => let (l', r) := publish l m; (m, r) :: runPubs l' ms
+
+def finalLog : CLog → List Msg → CLog
+  | l, [] => l
+  | l, m :: ms => finalLog (publish l m).1 ms
+
+/- Some hypotheses of the statements below are not needed by the proofs (`Inv l` in `stored_iff`,
+`rejected_incorrect_offset`, `rejected_unchanged`, `waived_accepted`; `l.occ = true` in
+`stored_are_appended`); the statements are kept as specified. -/
+set_option linter.unusedVariables false
+
+/-! `publish` / `runPubs` / `finalLog` are the functions the helper lemmas of `Proofs/Occ.lean`
+are stated on. -/
+theorem publish_eq (l : CLog) (m : Msg) : publish l m = Occ.pub l m := rfl
+
+theorem runPubs_eq (l : CLog) (ms : List Msg) : runPubs l ms = Occ.runP l ms := by
+  induction ms generalizing l with
+  | nil => rfl
+  | cons m ms ih => exact congrArg ((m, (publish l m).2) :: ·) (ih (publish l m).1)
+
+theorem finalLog_eq (l : CLog) (ms : List Msg) : finalLog l ms = Occ.finalP l ms := by
+  induction ms generalizing l with
+  | nil => rfl
+  | cons m ms ih => exact ih (publish l m).1
+
+/-- Stored if and only if the expected offset is waived (-1) or equals the offset the message
+would be assigned. -/
+theorem stored_iff (l : CLog) (m : Msg) (h : Inv l) (hocc : l.occ = true) (hro : l.readonly = false) :
+    (∃ o, (publish l m).2 = .ok o) ↔ (m.expected = -1 ∨ m.expected = l.nextOffset) :=
+  Occ.pub_stored_iff l m hocc hro
+
+/-- A stored conditional publish is stored at exactly the next offset — which is the expected
+one unless the check was waived — and appended at the end of the log. -/
+theorem stored_at_expected (l : CLog) (m : Msg) (o : Int) (h : Inv l) (hocc : l.occ = true)
+    (hp : (publish l m).2 = .ok o) :
+    o = l.nextOffset ∧ (m.expected ≠ -1 → o = m.expected) ∧
+    (publish l m).1.abs = l.abs ++ [{ offset := o, ts := m.ts, epoch := m.epoch, body := m.body }] :=
+  Occ.pub_stored_at_expected l m o h hocc hp
+
+/-- Otherwise the publisher gets the incorrect-offset error … -/
+theorem rejected_incorrect_offset (l : CLog) (m : Msg) (h : Inv l) (hocc : l.occ = true)
+    (hro : l.readonly = false) (hne : m.expected ≠ -1) (hne' : m.expected ≠ l.nextOffset) :
+    (publish l m).2 = .err "incorrect-offset" :=
+  Occ.pub_rejected l m hocc hro hne hne'
+
+/-- … and the log is unchanged. -/
+theorem rejected_unchanged (l : CLog) (m : Msg) (e : String) (h : Inv l)
+    (hp : (publish l m).2 = .err e) :
+    (publish l m).1.abs = l.abs ∧ (publish l m).1.nextOffset = l.nextOffset :=
+  (Occ.pub_err hp).2.2
+
+/-- Publishes that waive the check are always accepted (on a writable log). -/
+theorem waived_accepted (l : CLog) (m : Msg) (h : Inv l) (hro : l.readonly = false)
+    (hw : m.expected = -1) : ∃ o, (publish l m).2 = .ok o :=
+  Occ.pub_waived l m hro hw
+
+/-- The invariant is kept, so the statements above apply to every publish of a history. -/
+theorem publish_inv (l : CLog) (m : Msg) (h : Inv l) : Inv (publish l m).1 ∧
+    (publish l m).1.occ = l.occ ∧ (publish l m).1.readonly = l.readonly :=
+  Occ.pub_inv l m h
+
+/-- Of any set of publishers racing with the same expected offset `e ≠ -1` — in ANY arrival
+order, interleaved with any other publishes — at most one succeeds. -/
+theorem at_most_one_winner (l : CLog) (ms : List Msg) (e : Int) (h : Inv l) (hocc : l.occ = true)
+    (he : e ≠ -1) :
+    ((runPubs l ms).filter (fun pr => pr.2.isOk && decide (pr.1.expected = e))).length ≤ 1 := by
+  rw [runPubs_eq]; exact Occ.at_most_one ms e he l h hocc
+
+/-- Every stored publish of a history got a distinct offset, and the log grew by exactly the
+stored ones, in arrival order. -/
+theorem stored_are_appended (l : CLog) (ms : List Msg) (h : Inv l) (hocc : l.occ = true) :
+    (finalLog l ms).abs = l.abs ++ (runPubs l ms).filterMap (fun pr =>
+      match pr.2 with
+      | .ok o => some { offset := o, ts := pr.1.ts, epoch := pr.1.epoch, body := pr.1.body }
+      | _ => none) := by
+  rw [finalLog_eq, runPubs_eq]; exact Occ.stored_appended ms l h
+
+/-- With concurrency control a batch of more than one message is not processed (it panics):
+the reason the sequencer forces the batch size to 1. -/
+theorem batch_panics (l : CLog) (ms : List Msg) (hocc : l.occ = true) (hro : l.readonly = false)
+    (hlen : 1 < ms.length) : l.append ms = .panic :=
+  Occ.batch_panics l ms hocc hro hlen
+
+/-- The sequencer really does process one message at a time on such streams, and the API
+refuses the NONE ack policy for them (facts regenerated from partition.go / api.go). -/
+theorem sequencer_single_message : Gen.Partition.occBatchOne = true ∧ Gen.Partition.occRefusesAckNone = true := by
+  decide
+
+/-- Non-vacuity: a race of three publishers on offset 0 of a fresh OCC log — exactly one wins. -/
+example : ((runPubs (CLog.init 100 true)
+    [{ ts := 1, epoch := 1, body := ⟨none, some [1], []⟩, expected := 0 },
+     { ts := 2, epoch := 1, body := ⟨none, some [2], []⟩, expected := 0 },
+     { ts := 3, epoch := 1, body := ⟨none, some [3], []⟩, expected := 0 }]).map (fun pr => pr.2.isOk))
+    = [true, false, false] := by decide
+
 end Liftbridge.Props.C16
